@@ -93,3 +93,10 @@ func Program(chunks map[uint16][]byte) []byte {
 	}
 	return img
 }
+
+// ProgramCart is Program with a cartridge-type and RAM-size byte in the header (32 KiB ROM, 2 pages).
+func ProgramCart(cartType, ramCode uint8, chunks map[uint16][]byte) []byte {
+	img := Program(chunks)
+	img[0x147], img[0x148], img[0x149] = cartType, 0x00, ramCode
+	return img
+}
